@@ -126,7 +126,7 @@ impl<'a> RangeBuilder<'a> {
         transcript: &mut Transcript,
     ) -> CredxResult<Self> {
         if statement.claim != commitment_builder.statement.claim
-            && statement.signature_id != commitment_builder.statement.reference_id
+            || statement.signature_id != commitment_builder.statement.reference_id
         {
             // Not testing the same message from the same signature
             return Err(Error::InvalidPresentationData(format!("range proof statement with id '{}' is not proving the same claim found in the specified commitment statement with id '{}': range proof statement reference signature statement id '{}', commitment statement reference signature statement id '{}'", statement.id, commitment_builder.statement.id, statement.signature_id, commitment_builder.statement.reference_id)));
